@@ -35,6 +35,14 @@ def gen_project(rng):
         src.vars.append((rng.choice(["-p%d", "_p%d"]) % i, base + 3, False))
         if rng.chance(0.4):
             src.vars.append(("shared", base + 4, rng.chance(0.5)))
+        if rng.chance(0.35):
+            # members whose own names start with the prefix this module is forwarded under (`@forward "mI" as pI-*`
+            # exposes `$pI-aI` as `$pI-pI-aI`; the prefix is stripped exactly once on the way back)
+            src.vars.append(("p%d-a%d" % (i, i), base + 9, rng.chance(0.3)))
+            src.funcs.append(("p%d-f%d" % (i, i), base + 10))
+            src.mixins.append(("p%d-x%d" % (i, i), base + 11))
+            if rng.chance(0.5):
+                src.vars.append(("p%d-p%d-a%d" % (i, i, i), base + 12, False))
         src.funcs.append(("f%d" % i, base + 5))
         src.funcs.append(("-pf%d" % i, base + 6))
         src.mixins.append(("x%d" % i, base + 7))
@@ -156,6 +164,8 @@ def gen_probes(rng, mods, entry_uses):
                         cand.append(("var", v[0]))
                 for f in mm.funcs:
                     cand.append(("func", (prefix or "") + f[0]))
+                for x in mm.mixins:
+                    cand.append(("mixin", (prefix or "") + x[0]))
         cand.append(("var", "nope"))
         for kind, name in rng.sample(cand, min(len(cand), 6)):
             out.append((kind, ns, name))
